@@ -320,9 +320,47 @@ func c09Range(c *Ctx, rule string) {
 			if fs.Fn == ctor || strings.HasSuffix(c.P.Fset.Position(fs.Pos).Filename, "_test.go") {
 				continue
 			}
+			// an operation of the score algebra that builds its result itself instead of calling the constructor: the
+			// result is held to the range for every kind of argument in range
+			if _, fresh := isFreshAlloc(fs.Base); fresh && fs.Fn.Pkg == ctor.Pkg && len(fs.Fn.Params) > 0 && types.Identical(fs.Fn.Params[0].Type(), scoreN) &&
+				fs.Fn.Signature.Results().Len() == 1 && types.Identical(fs.Fn.Signature.Results().At(0).Type(), scoreN) {
+				why := ""
+				for _, kind := range []scoreKind{skLost, skMateNeg, skHeur, skMatePos, skWon} {
+					st := absint.NewState()
+					x := e.mk(kind, 1)
+					if kind == skMateNeg || kind == skMatePos {
+						k := x.(*absint.Struct).F[1]
+						absint.Assume(st, absint.BinOp(token.GEQ, k, absint.MkInt(-lim, e.mateT), boolT), true)
+						absint.Assume(st, absint.BinOp(token.LEQ, k, absint.MkInt(lim, e.mateT), boolT), true)
+					}
+					args := []absint.Value{x}
+					for _, p := range fs.Fn.Params[1:] {
+						args = append(args, absint.NewSym(p.Type(), p.Name()))
+					}
+					np := 0
+					for _, o := range e.in.Run(fs.Fn, args, st) {
+						if o.Panic || o.Undecided() {
+							why = fmt.Sprintf("path not decided: %v", o.St.Notes)
+							continue
+						}
+						np++
+						if w := checkScore(o.St, o.Ret); w != "" {
+							why = w
+						}
+					}
+					if np == 0 && why == "" {
+						why = "no path"
+					}
+				}
+				if why == "" {
+					continue
+				}
+				others = append(others, c.P.FuncName(fs.Fn)+" at "+c.pos(fs.Pos)+" ("+why+")")
+				continue
+			}
 			others = append(others, c.P.FuncName(fs.Fn)+" at "+c.pos(fs.Pos))
 		}
-		r.Check(len(others) == 0 && n > 0, rule, "the mate distance is written only by its constructor", c.pos(ctor.Pos()), "", strings.Join(others, "; "))
+		r.Check(len(others) == 0 && n > 0, rule, "the mate distance is written only by its constructor (or by an operation whose result is held to the range)", c.pos(ctor.Pos()), "", strings.Join(others, "; "))
 	}
 	// (3) the algebra maps the range into itself
 	for _, t := range [][2]string{{"Score", "Negate"}, {"", "IncrementMateDistance"}, {"", "DecrementMateDistance"}, {"Score", "MateDistance"}} {
